@@ -353,7 +353,22 @@ func discharge(eng *Engine, obls []*Obligation, opt dischargeOpts) {
 			}
 			var best, bestOut, bestSolver string
 			var total float64
-			for si, s := range solvers {
+			order := solvers
+			if h := solverHints[shortFn(j.o.Fn)+"/"+j.o.Name]; h != "" && h != solvers[0].name {
+				// a solver known to decide this obligation quickly goes first (solver_hints.json)
+				order = nil
+				for _, s := range solvers {
+					if s.name == h {
+						order = append(order, s)
+					}
+				}
+				for _, s := range solvers {
+					if s.name != h {
+						order = append(order, s)
+					}
+				}
+			}
+			for si, s := range order {
 				status, out, secs := runSolver(s, j.file, opt.timeout)
 				total += secs
 				if status == want {
@@ -480,3 +495,8 @@ func isByteStoreSym(n string) bool {
 
 // implIfaces: interface type behind each implements.<I> predicate (see execTypeAssert).
 var implIfaces = map[string]*types.Interface{}
+
+// solverHints: obligation -> solver that decided it on an earlier run (committed file
+// /verif/solver_hints.json, written by `govc check --write-hints`); only the order in which the
+// solvers are tried depends on it.
+var solverHints = map[string]string{}
